@@ -90,6 +90,10 @@ macro_rules! rdata_enum {
 
                 // OPT needs to look the ttl and class values, hence position will be advanced by OPT
                 // parsing code
+                if *position + 10 + rdatalen > data.len() {
+                    return Err(crate::SimpleDnsError::InsufficientData);
+                }
+
                 if rdatatype == TYPE::OPT {
                     return Ok(RData::OPT(OPT::parse(&data[..*position + rdatalen + 10], position)?))
                 }
@@ -99,11 +103,12 @@ macro_rules! rdata_enum {
                     return Ok(RData::Empty(rdatatype));
                 }
 
-                if *position + rdatalen > data.len() {
-                    return Err(crate::SimpleDnsError::InsufficientData);
-                }
+                let rdata_end = *position + rdatalen;
+                let rdata = parse_rdata(&data[..rdata_end], position, rdatatype)?;
+                // the next entry starts where RDLENGTH says, whatever the typed parser consumed
+                *position = rdata_end;
 
-                parse_rdata(&data[..*position + rdatalen], position, rdatatype)
+                Ok(rdata)
             }
 
             fn write_to<T: std::io::Write>(
